@@ -1,6 +1,9 @@
 """C10 — path decomposition and queries follow the C++17 std::filesystem::path model.
 
 cases:  "P <hex>" (a path string) | "N" (NULL, queries only)
+        | "Q <hex1> <hex2>" (the same buffer holding string 1, then rewritten in place to string 2: every function is
+          called before and after the rewrite inside one C function of the -O2 driver; each call must answer for the
+          string it sees, which is what a declaration promising too much -- __attribute__((const)) -- breaks)
 L1: spec line from the extracted Coq spec (PathDecSpec.v): text for root_name/relative_path/filename/
     stem/extension, canonical path form (separator runs collapsed) for root_directory/root_path/
     parent_path, the ten queries, and "every view is a slice of the input" (in= bits).
@@ -16,7 +19,8 @@ import vlib
 PROPS = "Properties_C10"
 RULE = ("every string over {'/','.','a','b'} up to length 7 (quick) / 10 plus every string over {'/','.','a'} of "
         "length 11 (thorough), random strings up to length 300 over separator/dot-heavy byte alphabets (bytes 1..255), "
-        "pattern strings (separator runs x dot names), and NULL for the queries; non-trivial = a string containing a "
+        "pattern strings (separator runs x dot names), NULL for the queries, and rewritten-buffer pairs (every ordered "
+        "pair of strings up to length 3 (quick) / 4 (thorough) over the same alphabet + random longer pairs); non-trivial = a string containing a "
         "separator or a dot; distinct case strings counted")
 ASSUMPTIONS = [
     "POSIX build of path.c (the #else branch: '/' is the only separator, root_name is always empty); the _WIN32 "
@@ -39,10 +43,66 @@ def P(bs):
 
 
 def bytes_of(case):
+    """the string of a P case; for a Q case the two strings joined by a NUL (statistics only)"""
     t = case.split()
+    if t[0] == "Q":
+        return b"\0".join(b"" if h == "-" else bytes.fromhex(h) for h in t[1:3])
     if t[0] != "P" or t[1] == "-":
         return b""
     return bytes.fromhex(t[1])
+
+
+def Q(a, b):
+    return "Q %s %s" % (P(a)[2:], P(b)[2:])
+
+
+# ---- second line of defence for the rewritten-buffer probe: the declared attributes of path.h -------------
+READS_MEMORY = {"ZIX_PURE_API", "ZIX_PURE_FUNC"}
+CONST_STUB_OK = {"zix_path_root_name", "zix_path_has_root_name"}     # constant stubs off Windows
+C10_FUNCS = ["zix_path_root_name", "zix_path_root_directory", "zix_path_root_path", "zix_path_relative_path",
+             "zix_path_parent_path", "zix_path_filename", "zix_path_stem", "zix_path_extension",
+             "zix_path_has_root_path", "zix_path_has_root_name", "zix_path_has_root_directory",
+             "zix_path_has_relative_path", "zix_path_has_parent_path", "zix_path_has_filename", "zix_path_has_stem",
+             "zix_path_has_extension", "zix_path_is_absolute", "zix_path_is_relative"]
+
+
+def declaration_mismatches(repo):
+    """every function of path.h that takes a `const char*` must be declared as reading memory (pure), never as
+    depending on its pointer value only (const); only the root_name pair may be the POSIX constant stub"""
+    import re
+    bad = []
+    def read(rel):
+        txt = open(os.path.join(repo, rel)).read()
+        return re.sub(r"//[^\n]*", "", re.sub(r"/\*.*?\*/", "", txt, flags=re.S))
+    try:
+        hdr = read("include/zix/path.h")
+        attrs = read("include/zix/attributes.h")
+    except OSError as e:
+        return ["path.h/attributes.h unreadable: %s" % e]
+    # the macros must still mean what the check assumes
+    if not re.search(r"define\s+ZIX_PURE_FUNC\s+__attribute__\(\(pure\)\)", attrs):
+        bad.append("ZIX_PURE_FUNC is no longer __attribute__((pure))")
+    m = re.search(r"define\s+ZIX_PURE_API\s+([^\n]*)", attrs)
+    if not m or "ZIX_PURE_FUNC" not in m.group(1) or "CONST" in m.group(1):
+        bad.append("ZIX_PURE_API no longer expands to ZIX_PURE_FUNC")
+    seen = {}
+    for m in re.finditer(r"((?:ZIX_[A-Z_]+\s+)+)([A-Za-z_][\w \t\*]*?)\s*\b(zix_path_\w+)\s*\(([^)]*)\)\s*;", hdr):
+        macros = m.group(1).split()
+        name, params = m.group(3), m.group(4)
+        if "const char*" not in params.replace(" *", "*"):
+            continue
+        seen[name] = macros
+        konst = [a for a in macros if "CONST" in a or a == "ZIX_PURE_WIN_API"]
+        if konst and name not in CONST_STUB_OK:
+            bad.append("%s is declared %s (= __attribute__((const)) off Windows) but reads the string it is given"
+                       % (name, " ".join(konst)))
+        if name in C10_FUNCS and name not in CONST_STUB_OK and not (set(macros) & READS_MEMORY):
+            if not konst:
+                bad.append("%s is declared %s, expected ZIX_PURE_API" % (name, " ".join(macros)))
+    for f in C10_FUNCS:
+        if f not in seen:
+            bad.append("%s: declaration not found in path.h" % f)
+    return bad
 
 
 def _stale(target, sources):
@@ -53,7 +113,10 @@ def _stale(target, sources):
 
 
 def build(ctx):
-    ctx.build_driver("drv_c10", ["path.c", "string_view.c", "allocator.c"])
+    # -O2 (overrides vlib's -O1): the rewritten-buffer probe needs an optimising caller
+    ctx.build_driver("drv_c10", ["path.c", "string_view.c", "allocator.c"], flags=["-O2"])
+    for b in declaration_mismatches(vlib.REPO):
+        ctx.broken.append("correspondence:declaration " + b)
     ctx.cc([os.path.join(vlib.HARNESS, "std_path_c10.cpp")], ctx.path("std_path_c10"), cxx=True, sanitize=False)
     exe = os.path.join(vlib.OCAML_BUILD, "drv_c10")
     srcs = [os.path.join(vlib.COQ, f) for f in ("PathDecSpec.v", "PathDecModel.v", "ExtractC10.v")] + \
@@ -86,6 +149,24 @@ def rand_cases(r, count, maxlen):
     return out
 
 
+SMALL_PAIRS = [(b"/a", b"a"), (b"a", b"/a"), (b"a.b", b"a"), (b"a", b"a.b"), (b"//", b""), (b"", b"//"),
+               (b"a/b", b"b"), (b"b", b"a/b"), (b"a/", b"a"), (b"a", b"a/"), (b".a", b"a.a"), (b"a.a", b".a"),
+               (b"..", b"a."), (b"a.", b".."), (b"/", b"."), (b".", b"/"), (b"/usr/lib", b"usr/lib"),
+               (b"///x", b"x"), (b"/.hidden", b".hidden"), (b"a/b.c", b"a.b/c"), (b"a.b/c", b"a/b.c")]
+
+
+def pair_cases(r, maxlen, nrandom):
+    """same pointer, rewritten buffer: ordered pairs of strings whose answers differ in every combination"""
+    out = [Q(a, b) for (a, b) in SMALL_PAIRS]
+    small = [t for n in range(0, maxlen + 1) for t in itertools.product(ALPHA4, repeat=n)]
+    out += [Q(a, b) for a in small for b in small]
+    for _ in range(nrandom):
+        a = [r.choice(ALPHA4 + (0x2f, 0x2e)) for _ in range(r.randint(0, 24))]
+        b = [r.choice(ALPHA4 + (0x2f, 0x2e)) for _ in range(r.randint(0, 24))]
+        out.append(Q(a, b))
+    return out
+
+
 def patterns():
     """separator runs x names built from dots: the arrangements the scanners branch on"""
     names = [b"", b"a", b".", b"..", b"...", b".a", b"a.", b"..a", b"a..", b".a.", b"a.b", b".a.b", b"a.b.c", b"a..b",
@@ -112,22 +193,24 @@ def patterns():
 def gen(ctx, seed, tier):
     r = ctx.rng("gen", seed)
     if seed != ctx.seed:                      # extra seeds of the search: the random part only
-        return rand_cases(r, 4000, 300)
+        return rand_cases(r, 4000, 300) + pair_cases(r, 1, 2000)
     cases = ["N"]
     if tier == "thorough":
         cases += list(enum(ALPHA4, 0, 10))
         cases += list(enum(ALPHA3, 11, 11))
         cases += patterns()
         cases += rand_cases(r, 20000, 300)
+        cases += pair_cases(r, 4, 20000)
     else:
         cases += list(enum(ALPHA4, 0, 7))
         cases += patterns()
         cases += rand_cases(r, 2000, 300)
+        cases += pair_cases(r, 3, 2000)
     return cases
 
 
 def targeted(ctx):
-    return ["N"] + patterns() + list(enum(ALPHA3, 0, 8))
+    return ["N"] + patterns() + list(enum(ALPHA3, 0, 8)) + pair_cases(ctx.rng("targeted"), 2, 3000)
 
 
 def corpus(ctx):
@@ -199,23 +282,26 @@ def nontrivial(c):
 
 
 def tokens(case):
-    if case == "N":
-        return ["N"]
+    if case == "N" or case.startswith("Q "):
+        return [case]                      # not shrunk
     return ["%02x" % b for b in bytes_of(case)]
 
 
 def untokens(toks):
-    if toks == ["N"]:
-        return "N"
+    if len(toks) == 1 and (toks[0] == "N" or toks[0].startswith("Q ")):
+        return toks[0]
     return "P " + ("".join(toks) or "-")
 
 
 def stats(cases, impl):
-    d = {"null_cases": 0, "rooted": 0, "trailing_separator": 0, "with_dot": 0, "multi_separator_run": 0,
+    d = {"null_cases": 0, "rewritten_buffer_pairs": 0, "rooted": 0, "trailing_separator": 0, "with_dot": 0, "multi_separator_run": 0,
          "len_le_7": 0, "len_8_16": 0, "len_gt_16": 0, "non_ascii": 0}
     for c in cases:
         if c == "N":
             d["null_cases"] += 1
+            continue
+        if c.startswith("Q "):
+            d["rewritten_buffer_pairs"] += 1
             continue
         b = bytes_of(c)
         d["rooted"] += b.startswith(b"/")
@@ -229,7 +315,9 @@ def stats(cases, impl):
     names = ["rd", "rp", "rel", "par", "fn", "st", "ex"]
     for n in names:
         d["impl_nonempty_" + n] = 0
-    for l in impl:
+    for c, l in zip(cases, impl):
+        if not c.startswith("P "):
+            continue
         for t in vlib.obs(l).split():
             k, _, v = t.partition("=")
             if k in names and v != "-":
@@ -238,7 +326,7 @@ def stats(cases, impl):
     br = {"parent_is_root": 0, "parent_general": 0, "parent_empty": 0, "filename_empty_trailing_sep": 0,
           "stem_is_whole_name_with_dot": 0, "stem_cut_at_last_dot": 0}
     for c, l in zip(cases, impl):
-        if c == "N" or " || " not in l:
+        if not c.startswith("P ") or " || " not in l:
             continue
         o = dict(t.split("=", 1) for t in vlib.obs(l).split())
         s = dict(t.split("=", 1) for t in l.split(" || ")[1].split())
@@ -264,6 +352,8 @@ def check(ctx):
     # record the spec-vs-libstdc++ validation in the evidence
     import json
     p = os.path.join(vlib.VERIF, "evidence", "C10.json")
+    if os.environ.get("VERIF_NO_EVIDENCE") or os.path.realpath(vlib.REPO) != "/repo":
+        return rc
     try:
         ev = json.load(open(p))
         ev["coverage"]["spec_validated_against_libstdcxx"] = getattr(ctx, "c10_oracle", {})
